@@ -1,6 +1,6 @@
 (* C31 -- property statements (model of CxxTokenizer, see C31Model.v; specification C31Spec.v) *)
 From Coq Require Import Ascii List Bool Arith.
-From C31 Require Import C31Model C31Spec C31Proofs C31Round.
+From C31 Require Import C31Model C31Spec C31Proofs C31Whole C31Lang C31Round C31Classes.
 Import ListNotations.
 Local Open Scope char_scope.
 
@@ -43,26 +43,23 @@ Theorem strip_comments_removes_exactly_comments : forall fx l out,
 Proof. exact strip_comments_spec. Qed.
 Print Assumptions strip_comments_removes_exactly_comments.
 
-(* (4) round trip, for tokens of simple classes rendered on one line with arbitrary positive blanks *)
-Theorem round_trip_partial : forall cas items,
-    Forall valid items -> lex cas (render items) = Ok (toks_at 1 0 items).
-Proof. exact lex_round_trip. Qed.
-Print Assumptions round_trip_partial.
+(* (2') whole inputs of several lines, multi-line comments included: the tokens describe the input line after line
+   (relations in_cov / open_cov of C31Spec.v) *)
+Theorem input_reproduced : forall cas s ts, lex cas s = Ok ts -> in_cov 1 (lines_of [] s) ts.
+Proof. exact lex_input_reproduced. Qed.
+Print Assumptions input_reproduced.
 
-Theorem round_trip_words : forall c body,
-    word_start c = true -> forallb word_char body = true -> scans_as (c :: body) Standard.
-Proof. exact word_scans. Qed.
-Print Assumptions round_trip_words.
-
-Theorem round_trip_separators : forall c, In c single_seps -> scans_as [c] Standard.
-Proof. exact sep_scans. Qed.
-Print Assumptions round_trip_separators.
-
-Theorem round_trip_integers : forall c body, forallb isdigit (c :: body) = true -> scans_as (c :: body) Number.
-Proof. exact number_scans. Qed.
-Print Assumptions round_trip_integers.
-
-Theorem round_trip_strings : forall body,
-    forallb plain_char body = true -> scans_as ("""" :: body ++ [""""]) String.
-Proof. exact string_scans. Qed.
-Print Assumptions round_trip_strings.
+(* (4) round trip: lines made of the lexical elements of C31Lang.v -- identifiers, the whole operator / separator table
+   with its multi-character operators, integer / floating-point (/ hexadecimal / binary, with the repair) literals with
+   digit separators, exponents, suffixes and user-defined suffixes, optionally signed, string and character literals
+   with escapes, C and C++ comments --, with any white space that keeps adjacent elements separable (boolean predicate
+   line_ok: side condition of each element, [follow_of] of an element on the first character after it), on any number
+   of lines, are tokenized back into exactly these elements with flags, line numbers and offsets *)
+Theorem round_trip : forall o ls,
+    Forall (fun l => line_ok o l = true) ls -> lex o (render_lines ls) = Ok (toks_lines 1 true ls).
+Proof. exact round_trip_lines. Qed.
+Print Assumptions round_trip.
+(* every element that satisfies its side condition is scanned as one token in every admissible context *)
+Theorem round_trip_elements : forall o t, tok_ok o t = true -> spec_scans o t.
+Proof. exact all_specs_scan. Qed.
+Print Assumptions round_trip_elements.
